@@ -403,7 +403,9 @@ class RainbowDQN(RLAlgorithm):
                 else:
                     elementwise_loss = n_step_elementwise_loss
 
-            loss = torch.mean(elementwise_loss * weights)
+            # weights come from the buffer as (batch_size, 1): flatten them so that every
+            # sample's loss is scaled by its own importance weight
+            loss = torch.mean(elementwise_loss * weights.reshape(-1))
 
         else:
             if n_step:
